@@ -20,12 +20,16 @@ pub fn assert_there_are_no_top_level_name_clashes(file: &File) -> Result<(), Kik
     Ok(())
 }
 
-/// This set contains:
+/// The defined symbols, kept apart by kind so that a name of one kind
+/// cannot stand in for a name of the other kind:
 /// 1. Nonterminal names
 /// 2. Terminal variant names
 ///
-/// It does **not** contain the terminal enum name.
-pub struct DefinedSymbols(pub HashSet<String>);
+/// Neither set contains the terminal enum name.
+pub struct DefinedSymbols {
+    pub nonterminals: HashSet<String>,
+    pub terminals: HashSet<String>,
+}
 
 /// This function validates that:
 /// 1. There are no duplicate nonterminal names.
@@ -38,10 +42,30 @@ pub struct DefinedSymbols(pub HashSet<String>);
 ///
 /// This function does **not** validate capitalization.
 pub fn get_defined_symbols(file: &File) -> Result<DefinedSymbols, KikiErr> {
-    let seen = get_defined_symbol_positions(file)?;
-    Ok(DefinedSymbols(
-        seen.into_iter().map(|(name, _)| name).collect(),
-    ))
+    get_defined_symbol_positions(file)?;
+
+    let mut nonterminals = HashSet::new();
+    for item in &file.items {
+        match item {
+            FileItem::Struct(struct_def) => {
+                nonterminals.insert(struct_def.name.name.clone());
+            }
+            FileItem::Enum(enum_def) => {
+                nonterminals.insert(enum_def.name.name.clone());
+            }
+            FileItem::Start(_) | FileItem::Terminal(_) => {}
+        }
+    }
+
+    let mut terminals = HashSet::new();
+    for variant in &get_unvalidated_terminal_enum(file)?.variants {
+        terminals.insert(variant.name.name.to_string());
+    }
+
+    Ok(DefinedSymbols {
+        nonterminals,
+        terminals,
+    })
 }
 
 fn get_defined_symbol_positions(file: &File) -> Result<HashMap<String, ByteIndex>, KikiErr> {
